@@ -295,6 +295,9 @@ def check(case, rec):
             out = alphabet.apply(t, op)
         if out.skipped:
             rec.skip("%s:%s" % (op["op"], out.skipped))
+            if "refused" in out.skipped and not blind:
+                # a refused call leaves the table as coherent as it was
+                invariant(t, seen, "refused step %d %r" % (k, op), phase + k)
             continue
         rec.cls("op:" + op["op"])
         applied += 1
@@ -385,6 +388,8 @@ EXH_OPS = [
      "inplace": True, "mask": M1},
     {"op": "update_ids", "axis": "observation", "style": "collide",
      "strict": True, "inplace": False, "mask": M1},
+    {"op": "update_ids", "axis": "sample", "style": "collide_onto",
+     "strict": False, "inplace": True, "mask": M1},
     {"op": "transform", "axis": "observation", "fn": "zero_all",
      "inplace": True},
     {"op": "add_metadata", "axis": "sample", "mask": M1, "key": "new",
